@@ -321,6 +321,139 @@ pub fn typed_programs_count(size: usize) -> usize {
     n
 }
 
+// Definition groups that denote types: 1 .. max members named t, u, w, each defined as int, bool,
+// int -> int or as an alias of another member (before or after it; cyclic groups are left out), with
+// any member or a base type as the body. These are the types on which the structural shortcuts for
+// groups in the conversion check have something to get wrong (equal prefixes, equal bodies, equal
+// sizes with different members).
+pub fn group_types(max_members: usize) -> Vec<String> {
+    let names = ["t", "u", "w"];
+    let bases = ["int", "bool", "int -> int"];
+    let mut out = vec![];
+    for n in 1..=max_members {
+        let choices = bases.len() + n - 1;
+        for code in 0..choices.pow(n as u32) {
+            // definition i: base (c < 3) or alias of the (c - 3)-th other member
+            let mut c = code;
+            let mut defs: Vec<Result<&str, usize>> = vec![];
+            for i in 0..n {
+                let d = c % choices;
+                c /= choices;
+                defs.push(if d < bases.len() {
+                    Ok(bases[d])
+                } else {
+                    let others: Vec<usize> = (0..n).filter(|j| *j != i).collect();
+                    Err(others[d - bases.len()])
+                });
+            }
+            // acyclic?
+            let cyclic = (0..n).any(|start| {
+                let mut at = start;
+                for _ in 0..=n {
+                    match defs[at] {
+                        Ok(_) => return false,
+                        Err(j) => at = j,
+                    }
+                }
+                true
+            });
+            if cyclic {
+                continue;
+            }
+            let text: Vec<String> = (0..n)
+                .map(|i| {
+                    format!(
+                        "{} : type = {}",
+                        names[i],
+                        match defs[i] {
+                            Ok(b) => b.to_owned(),
+                            Err(j) => names[j].to_owned(),
+                        }
+                    )
+                })
+                .collect();
+            for body in names[..n].iter().chain(["int", "bool"].iter()) {
+                out.push(format!("{}; {body}", text.join("; ")));
+            }
+        }
+    }
+    out
+}
+
+// The type-pair family: for every ordered pair (T1, T2) of the `k` smallest closed terms of type `type`
+// (function types also with the implicitness of their outermost binder flipped) and of the group types
+// above, three programs in
+// which the checker has to decide T1 = T2 — an argument against a parameter type, the two branches of
+// a conditional, a definition against its annotation. Each is well typed iff T1 and T2 are convertible.
+pub fn type_pair_family(k: usize, tier: Tier) -> Vec<String> {
+    let progs = typed_programs(typed_size(tier));
+    let mut types: Vec<String> = vec![];
+    for (goal, s) in progs.iter() {
+        if *goal != Ty::Type {
+            continue;
+        }
+        types.push(surface::print(s));
+        if let Ok(M::Pi(n, i, a, b)) = surface::resolve(s, &[]) {
+            types.push(surface::print(&m_to_s(&M::Pi(n, !i, a, b), &mut vec![])));
+        }
+        if types.len() >= k {
+            break;
+        }
+    }
+    types.truncate(k);
+    types.extend(group_types(tier.pick(2, 3)));
+    let mut out = vec![];
+    for t1 in &types {
+        for t2 in &types {
+            out.push(format!("(ff : ({t1}) -> int) => (xx : ({t2})) => ff xx"));
+            out.push(format!("(xx : ({t1})) => (yy : ({t2})) => if true then xx else yy"));
+            out.push(format!("(xx : ({t1})) => (yy : ({t2}) = xx; 0)"));
+        }
+    }
+    // The same three meetings for open types under two type parameters, with a type-level function
+    // whose body is a definition group (so that reducing `pick a` substitutes an open term into a group).
+    let bodies = ["c", "(z : type = int; c)", "(z : type = c; z)", "(z : type = c; w : type = z; w)", "(z : type = int; w : type = c; w)", "(z : type = int; z)", "if true then c else int"];
+    let open_types = ["a", "b", "int", "pick a", "pick b", "pick int", "(z : type = a; z)", "(z : type = int; a)", "(z : type = b; w : type = a; w)", "a -> b", "pick a -> pick b", "(q : pick a) -> b"];
+    for body in bodies {
+        for t1 in open_types {
+            for t2 in open_types {
+                let head = format!("pick : (type -> type) = ((c : type) => {body}); (a : type) => (b : type) => ");
+                out.push(format!("{head}(ff : ({t1}) -> int) => (xx : ({t2})) => ff xx"));
+                out.push(format!("{head}(xx : ({t1})) => (yy : ({t2})) => if true then xx else yy"));
+                out.push(format!("{head}(xx : ({t1})) => (yy : ({t2}) = xx; 0)"));
+            }
+        }
+    }
+    // Two terms of one kind K meeting under an opaque type constructor: accepted iff E1 and E2 are
+    // convertible. `mk 3 : p E1` is obtained by instantiating a dependent codomain, so E1 has passed
+    // through substitution before the comparison. Kinds: int, bool, int -> int, the polymorphic identity
+    // type and its implicit twin (with the implicit twins of the generated lambdas).
+    let per_kind = tier.pick(24, 60);
+    let mut kinds: Vec<(String, Vec<String>)> = vec![];
+    for goal in [Ty::Int, Ty::Bool, Ty::fun(Ty::Int, Ty::Int), Ty::Poly] {
+        let pool: Vec<&Rc<S>> = progs.iter().filter(|(g, _)| *g == goal).map(|(_, s)| s).take(per_kind).collect();
+        kinds.push((surface::print(&goal.expr()), pool.iter().map(|s| surface::print(s)).collect()));
+        if goal == Ty::Poly {
+            let twins: Vec<String> = pool
+                .iter()
+                .filter_map(|s| match surface::resolve(s, &[]) {
+                    Ok(M::Lam(n, i, a, b)) => Some(surface::print(&m_to_s(&M::Lam(n, !i, a, b), &mut vec![]))),
+                    _ => None,
+                })
+                .collect();
+            kinds.push(("{a : type} -> a -> a".to_owned(), twins));
+        }
+    }
+    for (kind, pool) in &kinds {
+        for e1 in pool {
+            for e2 in pool {
+                out.push(format!("(pp : ({kind}) -> type) => (mk : (nn : int) -> pp ({e1})) => (ww : pp ({e2}) = mk 3; 0)"));
+            }
+        }
+    }
+    out
+}
+
 pub fn typed_size(tier: Tier) -> usize {
     tier.pick(6, 7)
 }
